@@ -237,3 +237,75 @@ PLAN["C15"] = dict(functions=DRIVER_FUNCS + ["hep::chkpt<R>::rollback", "hep::ch
                    bounds={"quick": "histories run(2); [text round trip]; rollback(k) for every k in 0..3; resume; all three integrators, default and "
                                     "user grid / weights with every zero pattern", "thorough": "run(3), k in 0..4"},
                    outside="longer histories; std engines", assumptions=DRIVER_ASSUME, jobs=ROLLBACK_JOBS)
+
+ORDER_JOBS = [
+    S("h_driver", drv(4, 0, n=3, cp=1), ["order.callback_once", "order.returned_checkpoint_is"]),
+    S("h_driver", drv(4, 1, n=2, cp=1), ["order.callback_once"]),
+    S("h_driver", drv(4, 2, n=2, cp=1), ["order.callback_once"]),
+    S("h_driver", drv(4, 1, n=3, cp=1, user=1), ["order.callback_once"], tiers=T),
+    S("h_driver", drv(4, 2, n=3, cp=0, user=1), ["order.callback_once"], tiers=T),
+]
+STOP_JOBS = [
+    S("h_driver", drv(5, 0, n=1, cp=3, fk=5, unit=1), ["builtin.stops_iff"]),
+    S("h_driver", drv(5, 0, n=1, cp=3, fk=5, unit=1, t0=1), ["builtin.zero_target_never"]),
+    S("h_driver", drv(5, 1, n=1, cp=3, fk=2, unit=1), ["builtin.stops_iff"]),
+    S("h_driver", drv(5, 2, n=1, cp=3, fk=2, unit=1), ["builtin.stops_iff"]),
+    S("h_driver", drv(5, 0, n=2, cp=3, fk=2, t0=1), ["builtin.zero_target_never"]),
+    S("h_driver", drv(5, 1, n=1, cp=3, fk=2, unit=1, t0=1), ["builtin.zero_target_never"]),
+    S("h_driver", drv(5, 2, n=2, cp=0, fk=2, t0=1), ["builtin.zero_target_never"]),
+    S("h_driver", drv(5, 1, n=2, cp=3, fk=2, t0=1), ["builtin.zero_target_never"], tiers=T, split=8),
+    S("h_driver", drv(5, 0, n=2, cp=3, fk=2, unit=1), ["builtin.stops_iff"], tiers=T, timeout_ms=120000),
+    S("h_driver", drv(5, 0, n=2, cp=3, fk=2), ["builtin.at_least_one"], tiers=T, timeout_ms=120000),
+]
+PLAN["C12"] = dict(functions=DRIVER_FUNCS + ["hep::callback<Checkpoint>::operator()", "hep::weighted_with_variance", "hep::create_result"],
+                   bounds={"quick": "n<=3 iterations, callback answers: every true/false sequence; built-in callback: target symbolic in (0,1] and "
+                                    "target 0, 1 result of 2 calls with every value kind {0, finite, NaN, +-inf} (decision observed directly), "
+                                    "2 iterations for target 0", "thorough": "2 results for the positive target"},
+                   outside="more iterations; MPI forms are in C04's harness; verbose modes in C20",
+                   assumptions=DRIVER_ASSUME, jobs=ORDER_JOBS + STOP_JOBS)
+
+STATE_JOBS = [
+    S("h_driver", drv(7, 1, n=2, cp=1, user=1), ["state.first_iteration_uses", "state.iteration_uses_refinement"]),
+    S("h_driver", drv(7, 1, n=2, cp=1, user=0), ["state.first_iteration_uses", "state.iteration_uses_refinement"]),
+    S("h_driver", drv(7, 2, n=2, cp=1, user=1), ["state.first_iteration_uses", "state.iteration_uses_refinement"]),
+    S("h_driver", drv(7, 2, n=2, cp=1, user=0), ["state.first_iteration_uses", "state.iteration_uses_refinement"]),
+    S("h_driver", drv(7, 1, n=3, cp=0, user=1), ["state.iteration_uses_refinement"], tiers=T),
+    S("h_driver", drv(7, 2, n=3, cp=0, user=1), ["state.iteration_uses_refinement"], tiers=T),
+    S("h_driver", drv(7, 1, n=2, cp=0, user=1, B=3), ["state.iteration_uses_refinement"], tiers=T),
+    S("h_driver", drv(7, 2, n=2, cp=0, user=1, C=3), ["state.iteration_uses_refinement"], tiers=T),
+]
+PLAN["C19"] = dict(functions=DRIVER_FUNCS, bounds=DRIVER_BOUNDS, outside="more iterations; the MPI variants are checked in C04's harness",
+                   assumptions=DRIVER_ASSUME,
+                   jobs=STATE_JOBS + only(KERNEL_JOBS, lambda j: j["cfg"]["ob"] == 3)
+                   + only(ITERATION_JOBS, lambda j: j["cfg"]["alg"] in (1, 2) and j["cfg"].get("N", 0) >= 1 and "quick" in j["tiers"]))
+
+MODES_JOBS = [
+    S("h_driver", drv(6, 0, n=2, cp=3, fk=2), ["modes.returned_checkpoint_identical", "modes.file_holds"]),
+    S("h_driver", drv(6, 1, n=1, cp=3, fk=2), ["modes.returned_checkpoint_identical"]),
+    S("h_driver", drv(6, 2, n=2, cp=0, fk=2), ["modes.returned_checkpoint_identical"]),
+    S("h_driver", drv(6, 0, n=1, cp=3, fk=5, t0=0), ["modes.returned_checkpoint_identical"]),
+    S("h_driver", drv(6, 2, n=1, cp=0, fk=2, C=3, user=1), ["modes.returned_checkpoint_identical"], split=4),
+    S("h_driver", drv(6, 1, n=2, cp=3, fk=2), ["modes.returned_checkpoint_identical"], tiers=T, split=12),
+    S("h_driver", drv(6, 2, n=1, cp=3, fk=2, C=3, user=1), ["modes.returned_checkpoint_identical"], tiers=T, split=12),
+    S("h_driver", drv(6, 1, n=2, cp=0, fk=5), ["modes.returned_checkpoint_identical"], tiers=T, split=8),
+]
+PLAN["C20"] = dict(functions=DRIVER_FUNCS + ["hep::callback<Checkpoint>::operator() (all four modes)", "hep::multi_channel_summary",
+                                             "hep::multi_channel_weight_info", "hep::multi_channel_max_difference", "hep::make_list_of_ranges",
+                                             "hep::chi_square_dof"],
+                   bounds={"quick": "n<=2 iterations of 1-2 calls, the four modes on the same symbolic inputs, C<=3 channels with every zero pattern",
+                           "thorough": "value kinds incl. non-finite for VEGAS; 2 iterations with 3 channels"},
+                   outside="many channels (> 2*5+1 printable: index arithmetic of the summary, see summary harness); MPI (C04 harness)",
+                   assumptions=DRIVER_ASSUME + ["std::cout is redirected into a string; the checkpoint file is a scratch file under out/"],
+                   jobs=MODES_JOBS)
+
+POISON_JOBS = [
+    S("h_driver", drv(8, 0, n=1, cp=3, fk=5, dist=5, dx=0), ["poison.results_identical"], split=4),
+    S("h_driver", drv(8, 0, n=2, cp=0, fk=5, dist=5, dx=1), ["poison.results_identical"], tiers=T, split=12),
+    S("h_driver", drv(8, 1, n=2, cp=0, fk=5), ["poison.adaptation_identical"]),
+    S("h_driver", drv(8, 2, n=2, cp=0, fk=5), ["poison.adaptation_identical"]),
+    S("h_driver", drv(8, 1, n=2, cp=1, fk=5, user=1), ["poison.adaptation_identical"], tiers=T),
+    S("h_driver", drv(8, 2, n=2, cp=1, fk=5, user=1), ["poison.adaptation_identical"], tiers=T),
+    S("h_driver", drv(8, 1, n=3, cp=0, fk=5), ["poison.adaptation_identical"], tiers=T),
+]
+PLAN["C06"]["jobs"] = ITERATION_JOBS + POISON_JOBS
+PLAN["C06"]["functions"] = sorted(set(PLAN["C06"]["functions"] + DRIVER_FUNCS))
